@@ -156,7 +156,12 @@ func GHASH(H []byte, A []byte, C []byte) (X []byte) {
 	Am := make([]byte, v/8)
 	copy(Am[:], A[(m-1)*BlockSize:])
 	Am = append(Am, zeros...)
-	copy(X[m*BlockSize:m*BlockSize+BlockSize], multiplication(addition(X[(m-1)*BlockSize:(m-1)*BlockSize+BlockSize], Am), H))
+	if len(A) == 0 {
+		// an empty A contributes no block: X_m = X_{m-1}
+		copy(X[m*BlockSize:m*BlockSize+BlockSize], X[(m-1)*BlockSize:(m-1)*BlockSize+BlockSize])
+	} else {
+		copy(X[m*BlockSize:m*BlockSize+BlockSize], multiplication(addition(X[(m-1)*BlockSize:(m-1)*BlockSize+BlockSize], Am), H))
+	}
 
 	//i=m+1...m+n-1
 	for i := m + 1; i <= (m + n - 1); i++ {
@@ -168,7 +173,12 @@ func GHASH(H []byte, A []byte, C []byte) (X []byte) {
 	Cn := make([]byte, u/8)
 	copy(Cn[:], C[(n-1)*BlockSize:])
 	Cn = append(Cn, zeros...)
-	copy(X[(m+n)*BlockSize:(m+n)*BlockSize+BlockSize], multiplication(addition(X[(m+n-1)*BlockSize:(m+n-1)*BlockSize+BlockSize], Cn), H))
+	if len(C) == 0 {
+		// an empty C contributes no block: X_{m+n} = X_{m+n-1}
+		copy(X[(m+n)*BlockSize:(m+n)*BlockSize+BlockSize], X[(m+n-1)*BlockSize:(m+n-1)*BlockSize+BlockSize])
+	} else {
+		copy(X[(m+n)*BlockSize:(m+n)*BlockSize+BlockSize], multiplication(addition(X[(m+n-1)*BlockSize:(m+n-1)*BlockSize+BlockSize], Cn), H))
+	}
 
 	//i=m+n+1
 	var lenAB []byte
@@ -184,8 +194,9 @@ func GHASH(H []byte, A []byte, C []byte) (X []byte) {
 		data[7] = byte((len >> 0) & 0xff)
 		return data
 	}
-	lenAB = append(lenAB, calculateLenToBytes(len(A))...)
-	lenAB = append(lenAB, calculateLenToBytes(len(C))...)
+	// SP 800-38D: [len(A)]64 || [len(C)]64 are bit lengths
+	lenAB = append(lenAB, calculateLenToBytes(len(A)*8)...)
+	lenAB = append(lenAB, calculateLenToBytes(len(C)*8)...)
 	copy(X[(m+n+1)*BlockSize:(m+n+1)*BlockSize+BlockSize], multiplication(addition(X[(m+n)*BlockSize:(m+n)*BlockSize+BlockSize], lenAB), H))
 	return X[(m+n+1)*BlockSize : (m+n+1)*BlockSize+BlockSize]
 }
